@@ -438,6 +438,21 @@ void run_case(Ctx& c) {
     }
     c.label("accepted");
 
+    // An accepted manifest whose wire expiry cannot be represented in clock ticks: no exact value exists, so the result is
+    // either saturated (fine: no UB needed for that) or the seconds -> ticks multiplication wrapped.  The optimiser can
+    // prove such an overflow "impossible" from earlier UB (e.g. abs(INT64_MIN)) and drop UBSan's check, so the value
+    // itself is the witness.
+    if (risky) {
+        const std::int64_t secs = static_cast<std::int64_t>(get_expiry(payload));
+        const std::int64_t ns = got.expires_at.time_since_epoch().count();
+        const std::int64_t edge = (mgen::kMaxSafeSeconds - 1) * mgen::kNsPerSec;
+        const bool saturated = secs > 0 ? ns >= edge : ns <= -edge;
+        if (!saturated)
+            c.fail(kOverflowSig, "decode_manifest accepted an expiry field of " + std::to_string(secs) + " s and returned expires_at = " + std::to_string(ns) +
+                                     " ticks: the seconds -> ticks conversion overflowed (signed overflow; no saturation, no invalid_argument)");
+        c.label("expiry_out_of_range_accepted_saturated");
+    }
+
     // evidence only: the independent decoder's view of the same payload
     if (reaches_parser && ref.status == mgen::Parsed::Ok && ref.expiry_in_range())
         c.label(mgen::diff(got, ref.m, true).empty() ? "ref_decoder_agrees" : "ref_decoder_differs");
